@@ -13,6 +13,7 @@ Decided (tables and encoding idioms; values for concrete keys are OpenSSL's):
   K5 hash tables: HashFunction::{hash, native_digest} variant -> SHA-256/384/512;
   K6 canonical thumbprint input: serde_json is built without `preserve_order` (object keys sorted) and the thumbprint is
      serialised with the compact `to_string`.
+  Evaluation-first: K1 — jwk_public_key / jwk_public_key_thumbprint interpreted for the seven key types (member sets, kty/crv/alg/use).
 """
 import json
 import os
@@ -28,7 +29,8 @@ from . import crypto_tables as ct
 LEVEL = "other"
 TECHNIQUE = ("table extraction by abstract interpretation (JWK member sets, curve/width/NID tables, dispatch, hash tables), "
              "encoding-idiom rules on resolved callees (to_vec_padded vs to_vec, padding length), build-metadata check of the "
-             "JSON serializer's key ordering")
+             "JSON serializer's key ordering"
+             '; evaluation of jwk_public_key[_thumbprint] per key type')
 LEVEL_TEXT = ("Decides, for all seven key types at once, every table and encoding idiom the RFCs fix: member sets, constant "
               "members, coordinate and signature widths and how missing leading bytes are restored, algorithm dispatch, hash "
               "selection, canonical serialisation. The rare short-coordinate / short-component encodings that tests reach only "
